@@ -131,6 +131,14 @@ func (v *list_[V]) GetValues(first int, last int) Sequential[V] {
 
 func (v *list_[V]) InsertValue(slot uint, value V) {
 
+	// The slot must be within the bounds of the list.
+	if slot > uint(v.GetSize()) {
+		panic(fmt.Sprintf(
+			"The specified slot is outside the allowed range [0..%v]: %v",
+			v.GetSize(),
+			slot))
+	}
+
 	// Create a new larger array.
 	var size = uint(v.GetSize() + 1)
 	var array = Array[V](v.GetClass().Notation()).Make(size)
@@ -154,6 +162,14 @@ func (v *list_[V]) InsertValue(slot uint, value V) {
 }
 
 func (v *list_[V]) InsertValues(slot uint, values Sequential[V]) {
+
+	// The slot must be within the bounds of the list.
+	if slot > uint(v.GetSize()) {
+		panic(fmt.Sprintf(
+			"The specified slot is outside the allowed range [0..%v]: %v",
+			v.GetSize(),
+			slot))
+	}
 
 	// Create a new larger array.
 	var size = uint(v.GetSize() + values.GetSize())
